@@ -9,6 +9,7 @@ CONSTANTS
   BFaults <- BFaultsNone
   Ras <- RasSome
   Modes = {"exec"}
+  RunGaps <- GapsNone
   NRuns = 1
   Configs <- ConfigsC05x
   RecordHist = TRUE
